@@ -69,6 +69,18 @@ def content(path, variant):
         else:
             extra += ["", f"function gate_67_{tag}(env_67) {{", '    if (env_67 === "stage67") {', f"        return go_67_{tag}(env_67);", '    } else if (env_67 === "prod67") {',
                       f"        return stop_67_{tag}(env_67);", "    }", "    return null;", "}"]
+    # identical local names in many files, bound to different kinds of values: per-file analysis state that is keyed by
+    # identifier names (and not reset) would make one file's verdict depend on which files were seen before it
+    if lang == "py":
+        if (idx + variant) % 2 == 0:
+            extra += ["", f"def collect_shared_{tag}(items):", "    result = []", "    total = 0", "    for it in items:", "        result.append(it)", "    return result"]
+        else:
+            extra += ["", f"def render_shared_{tag}(items):", '    result = ""', "    for it in items:", "        result += str(it)", "    return result"]
+    else:
+        if (idx + variant) % 2 == 0:
+            extra += ["", f"function collectShared_{tag}(items) {{", "    const result = [];", "    for (const it of items) {", "        result.push(it);", "    }", "    return result;", "}"]
+        else:
+            extra += ["", f"function renderShared_{tag}(items) {{", '    let result = "";', "    for (const it of items) {", "        result += it;", "    }", "    return result;", "}"]
     return text + ("\n".join(extra) + "\n" if extra else "")
 
 
@@ -235,7 +247,7 @@ def check_order(case) -> Case:
     return Case(key=h(["order", case["cmd"], case["perm"], case["hashseed"] % 4, sorted(case["files"].items())]), nontrivial=nontrivial, labels=labels, failures=failures)
 
 
-ORDER_CMDS = ["dry", "stringly-typed", "dry", "stringly-typed", "magic-numbers", "nesting", "srp", "perf", "improper-logging"]
+ORDER_CMDS = ["dry", "stringly-typed", "dry", "stringly-typed", "magic-numbers", "nesting", "srp", "perf", "perf", "string-concat-loop", "improper-logging", "method-property", "stateless-class", "lbyl"]
 
 
 @st.composite
